@@ -57,6 +57,14 @@ pub fn run_case(ctx: &mut Ctx, fam: &str, _k: u64, r: &mut Rng) {
         if has_batch && r.chance(1, 2) {
             s.in_dims[0] = r.range(1, 4);
         }
+        // a convolutional stack takes images of any size: the size may change from batch to batch as well
+        if let LSpec::Conv { filters, .. } = &spec.layers[0] {
+            if r.chance(1, 3) {
+                let nd = s.in_dims.len();
+                s.in_dims[nd - 2] = filters.2 + *r.pick(&[0, 1, 2, 3]);
+                s.in_dims[nd - 1] = filters.3 + *r.pick(&[0, 1, 2, 3]);
+            }
+        }
         batch_sizes.push(if has_batch { s.in_dims[0] } else { 0 });
         let input = gen_input(r, &s, false);
         // target shape = output shape (from the reference forward)
